@@ -194,7 +194,12 @@ func (c *tracingHTTP2Conn) handleFrame(frame http2.Frame, isRequest bool) {
 		})
 
 	case *http2.GoAwayFrame:
-		c.setMaxStreamIDLocked(frame.LastStreamID, http2.ConnectionError(frame.ErrCode))
+		// The last stream ID in the frame refers to streams initiated by the
+		// receiver of the frame. All streams we trace are initiated by the client.
+		// So only a GOAWAY sent by the server tells us anything about them.
+		if !isRequest {
+			c.setMaxStreamIDLocked(frame.LastStreamID, http2.ConnectionError(frame.ErrCode))
+		}
 	}
 }
 
